@@ -28,6 +28,9 @@ setup: $(CORE_OBJ)
 
 .SECONDEXPANSION:
 subj_objs = $(foreach f,$(wildcard subjects/$(1)_*.cpp),$(BUILD)/$(basename $(f)).o)
+# structure checks of tree_all.cpp look into private bases and protected helpers of the library classes
+$(BUILD)/subjects/tree_all.o: CXXFLAGS += -fno-access-control
+
 $(BUILD)/sim_%: $(CORE_OBJ) $(CDS_OBJ) $$(call subj_objs,$$*)
 	@mkdir -p $(dir $@)
 	$(CXX) $(LDFLAGS) -o $@ $^ $(LIBS)
